@@ -197,6 +197,119 @@ def impl_via_store(case):
         return type(ex).__name__
 
 
+# ----------------------------------------------------------------- validate_data under every config enabling tracklet
+def lineage_labellings(case, rng_seed):
+    """(valid lineage labelling = weakly connected components, a corrupted one or None)"""
+    import random
+
+    nodes, edges = case["nodes"], case["edges"]
+    parent = {x: x for x in nodes}
+
+    def find(x):
+        while parent[x] != x:
+            parent[x] = parent[parent[x]]
+            x = parent[x]
+        return x
+    for u, v in edges:
+        parent[find(u)] = find(v)
+    roots = {}
+    good = [roots.setdefault(find(x), 100 + len(roots)) for x in nodes]
+    rng = random.Random(rng_seed)
+    bad = None
+    sizes = {}
+    for l in good:
+        sizes[l] = sizes.get(l, 0) + 1
+    if len(sizes) >= 2 and rng.random() < 0.5:      # join two components under one id
+        a, b = rng.sample(sorted(sizes), 2)
+        bad = [a if l == b else l for l in good]
+    elif any(k >= 2 for k in sizes.values()):        # split a component
+        i = rng.choice([i for i, l in enumerate(good) if sizes[l] >= 2])
+        bad = list(good)
+        bad[i] = 99999
+    elif len(sizes) >= 2:
+        a, b = rng.sample(sorted(sizes), 2)
+        bad = [a if l == b else l for l in good]
+    return good, bad
+
+
+def config_grid_expected(case, lin_valid, bits):
+    """first validator (graph, tracklet, lineage) that is enabled and whose data is invalid"""
+    rows = [tuple(e) for e in case["edges"]]
+    graph_ok = len(set(rows)) == len(rows)            # in-domain cases: unique ids, endpoints listed, no self loops
+    t_valid, t_bad = spec_oracle(case["nodes"], case["labels"], case["edges"])
+    if bits & 1 and not graph_ok:
+        return "Repeated edges found in data:", None
+    if not t_valid:
+        return "Found invalid tracklets:", t_bad
+    if bits & 8 and not lin_valid:
+        return "Found invalid lineages:", None
+    return None, None
+
+
+def impl_config_grid(item):
+    """validate_data under all 16 configs with tracklet=True on a geff declaring tracklet AND lineage ids
+    (plus valid sphere and ellipsoid properties), real validators"""
+    import geff_spec
+    from geff.validate.data import ValidationConfig, validate_data
+
+    case, lin = item
+    n = len(case["nodes"])
+    pm = lambda k, d: geff_spec.PropMetadata(identifier=k, dtype=d)  # noqa: E731
+    md = geff_spec.GeffMetadata(
+        geff_version="1.0.0", directed=True,
+        axes=[geff_spec.Axis(name="t", type="time"), geff_spec.Axis(name="y", type="space"), geff_spec.Axis(name="x", type="space")],
+        node_props_metadata={"trk": pm("trk", "int64"), "lin": pm("lin", "int64"), "r": pm("r", "float64"), "cov": pm("cov", "float64")},
+        edge_props_metadata={}, track_node_props={"tracklet": "trk", "lineage": "lin"}, sphere="r", ellipsoid="cov")
+    out = []
+    for bits in range(16):
+        g = {"metadata": md, "node_ids": np.asarray(case["nodes"], dtype=np.int64),
+             "edge_ids": np.asarray(case["edges"], dtype=np.int64).reshape(-1, 2),
+             "node_props": {"trk": {"values": np.asarray(case["labels"], dtype=np.int64), "missing": None},
+                            "lin": {"values": np.asarray(lin, dtype=np.int64), "missing": None},
+                            "r": {"values": np.ones(n), "missing": None},
+                            "cov": {"values": np.stack([2.0 * np.eye(2)] * n) if n else np.zeros((0, 2, 2)), "missing": None}},
+             "edge_props": {}}
+        cfg = ValidationConfig(tracklet=True, graph=bool(bits & 1), sphere=bool(bits & 2), ellipsoid=bool(bits & 4),
+                               lineage=bool(bits & 8))
+        try:
+            validate_data(g, cfg)
+            out.append({"o": "ok"})
+        except ValueError as ex:
+            head = str(ex.args[0]).split("\n")[0] if ex.args else ""
+            r = {"o": "ValueError", "head": head}
+            if head.startswith("Found invalid tracklets") and len(ex.args) == 2:
+                r["ids"] = [e["t"] for e in parse_errors(ex.args[1].split("\n"))]
+            out.append(r)
+        except Exception as ex:  # noqa: BLE001
+            out.append({"o": type(ex).__name__})
+    return out
+
+
+def judge_config_grid(ck, case, lin, lin_valid, outs):
+    n_fail = 0
+    for bits, r in enumerate(outs):
+        want_head, want_ids = config_grid_expected(case, lin_valid, bits)
+        cfg = {"tracklet": True, "graph": bool(bits & 1), "sphere": bool(bits & 2), "ellipsoid": bool(bits & 4),
+               "lineage": bool(bits & 8)}
+        rc = {**case, "lineage_labels": lin, "cfg_bits": bits}
+        if r["o"] not in ("ok", "ValueError"):
+            ck.fail("C13:validate_data-config-exception", f"validate_data({cfg}) raised {r['o']}", rc, r, want_head)
+        elif (r["o"] == "ok") != (want_head is None):
+            if r["o"] == "ok":
+                ck.fail("C13:validate_data-config-accepts-invalid",
+                        f"validate_data({cfg}) on a geff declaring tracklet and lineage ids passes although {want_head!r} is due", rc, r, want_head)
+            else:
+                ck.fail("C13:validate_data-config-rejects-valid", f"validate_data({cfg}) raised {r.get('head')!r} on valid data", rc, r, None)
+        elif want_head is not None and (r.get("head") != want_head or (want_ids is not None and r.get("ids") != want_ids)):
+            ck.fail("C13:validate_data-config-wrong-message",
+                    f"validate_data({cfg}): message {r.get('head')!r} naming {r.get('ids')}, expected {want_head!r} naming {want_ids}",
+                    rc, r, {"head": want_head, "ids": want_ids})
+        else:
+            continue
+        n_fail += 1
+    return n_fail
+
+
 # ----------------------------------------------------------------- generators
 def set_partitions(n):
     def rec(i, cur, mx):
@@ -436,7 +549,8 @@ def run(ck: common.Check):
                "digraphs on <=3 (quick) / <=4 (thorough) nodes (model==implementation only) + all DAGs on <=4 nodes x "
                "every non-empty missing mask x labellings (through validate_data) + sampled DAGs on 5-6 nodes + random "
                "layered forests with divisions/merges up to 40 nodes with the true tracklet labelling and single-edit "
-               "corruptions (a quarter with a missing mask); non-trivial = at least one edge or two ids; distinct = "
+               "corruptions (a quarter with a missing mask) + a sample of the in-domain cases through validate_data under all 16 "
+               "configs that enable tracklet on geffs declaring tracklet AND lineage ids, x {valid, corrupted} lineage labelling; non-trivial = at least one edge or two ids; distinct = "
                "distinct canonical JSON")
     cases = list(corpus())
     n_corpus = len(cases)
@@ -490,6 +604,29 @@ def run(ck: common.Check):
             if r2 != want:
                 ck.fail("C13:read_to_memory", f"read_to_memory(data_validation=tracklet) gave {r2}, expected {want}",
                         c, r2, want)
+    # every config that enables tracklet (16 combinations of the other flags), both id properties declared,
+    # {valid, invalid} tracklets (the case) x {valid, invalid} lineages
+    from harness.corr.C12 import lineage_oracle
+
+    pool = [c for c in cases if c.get("missing") is None and c.get("dtype") is None and c["nodes"] and in_domain(c)]
+    want_n = 1000 if ck.quick else 8000
+    step = max(1, len(pool) // want_n)
+    items, meta_items = [], []
+    for j, c in enumerate(pool[::step]):
+        good, bad = lineage_labellings(c, f"{ck.seed}:{j}")
+        for lin in (good, bad):
+            if lin is None:
+                continue
+            lv, _ = lineage_oracle({"nodes": c["nodes"], "labels": lin, "edges": c["edges"], "missing": None})
+            items.append((c, lin))
+            meta_items.append(lv)
+    grid_hist = {}
+    for (c, lin), lv, outs in zip(items, meta_items, common.pmap(impl_config_grid, items, chunksize=16)):
+        tv, _ = spec_oracle(c["nodes"], c["labels"], c["edges"])
+        k = f"tracklets-{'valid' if tv else 'invalid'}+lineages-{'valid' if lv else 'invalid'}"
+        grid_hist[k] = grid_hist.get(k, 0) + 16
+        judge_config_grid(ck, c, lin, lv, outs)
+    ck.extra["validate_data_all_16_configs_with_tracklet"] = grid_hist
     ck.extra["through_validate_data"] = n_vd
     ck.extra["through_store_and_read_to_memory"] = n_store
     ck.extra["corpus_cases"] = n_corpus
@@ -507,6 +644,25 @@ def run(ck: common.Check):
 
 def replay(rp):
     c = rp["case"]
+    if "cfg_bits" in c:
+        from harness.corr.C12 import lineage_oracle
+
+        lin = c["lineage_labels"]
+        lv, _ = lineage_oracle({"nodes": c["nodes"], "labels": lin, "edges": c["edges"], "missing": None})
+        outs = impl_config_grid((c, lin))
+
+        class R:
+            def __init__(self):
+                self.f = []
+
+            def fail(self, key, what, *a, **k):
+                self.f.append((key, what))
+        r = R()
+        judge_config_grid(r, {k: v for k, v in c.items() if k not in ("lineage_labels", "cfg_bits")}, lin, lv, outs)
+        mine = [f for f in r.f]
+        print(json.dumps({"case": c, "impl": outs[c["cfg_bits"]], "all_16_configs": outs, "failures": mine}))
+        print("REPLAY: property holds on this input" if not mine else "REPLAY: property FAILS on this input")
+        return 0 if not mine else 1
     im = impl_obs(c)
     out = {"case": c, "impl": im}
     ok = True
